@@ -42,7 +42,7 @@ def run(rep, tier, seed):
     P = RC.problems()
     ncase = 80 if tier == "quick" else 1000
     lines, expect, cases = [], [], []
-    fails, diffs, broken, known = [], [], [], []
+    fails, diffs, broken, known, known22 = [], [], [], [], []
     hist = dict(single=0, multi_in_step=0, terminal=0, events_reported=0, none=0)
     for k in range(ncase):
         multi = bool(rng.random() < 0.5)
@@ -75,6 +75,9 @@ def run(rep, tier, seed):
                     multi_step = True
                 grid.add(b)
         on_grid = any(any(abs(c - g) <= 4 * np.spacing(abs(g) + 1.0) for g in grid) for (c, d, tm) in specs)
+        # recorded finding D22: a crossing within `event_duration` (default 1e-8) after the start of an accepted step is dropped
+        evdur = optkw.get("event_duration", 1e-8)
+        near_start = any(any(0.0 <= c - g < evdur for g in grid) for (c, d, tm) in specs if d >= 0)
         hist["multi_in_step" if multi_step else ("single" if len(specs) else "none")] += 1
         spec = spec_events(specs, t0, tend)
         bad = []
@@ -106,6 +109,8 @@ def run(rep, tier, seed):
         if bad:
             if multi_step:
                 known.append((case, bad[0]))
+            elif near_start and all(("reported components" in m or "terminal event" in m) for m in bad):
+                known22.append((case, bad[0]))
             else:
                 fails.append((case, "; ".join(bad[:2])))
     # ---- state-dependent events with analytic crossing times: harmonic oscillator x'' = -x, event g = x
@@ -178,6 +183,23 @@ def run(rep, tier, seed):
                 rep.notes.append(f"recorded witness of D11 no longer fails (te = {list(wte)}): the entry in known_findings.json is stale")
         except Exception as ex:  # noqa
             rep.notes.append(f"replaying the D11 witness raised {type(ex).__name__}: {ex}")
+    kf22 = [e for e in kf if e.get("id") == "D22"]
+    kf = [e for e in kf if e.get("id") != "D22"]
+    if kf22:
+        try:
+            dae, y0 = P["ramp"]
+            wsol, _ = RC.run_rodas(dae, y0, [0.25, 10.25, 20.25], dict(rtol=1e-5, atol=1e-6, hmax=0.2, hinit=40.0), [(18.25, 0, True)])
+            if len(np.asarray(wsol.te)) == 0 and float(np.asarray(wsol.T)[-1]) == 20.25:
+                rep.known("D22", kf22[0]["line"].split("property=C10 ", 1)[1] + f"; recorded witness reproduces (no event reported, run continues to 20.25); "
+                                                                                  f"{len(known22)} generated runs of this seed fall in the recorded class")
+            else:
+                rep.notes.append("recorded witness of D22 no longer fails: the entry in known_findings.json is stale")
+        except Exception as ex:  # noqa
+            rep.notes.append(f"replaying the D22 witness raised {type(ex).__name__}: {ex}")
+    else:
+        for case, m in known22[:3]:
+            fails.append((case, "crossing within event_duration of a step start: " + m))
+    rep.cov["known_finding_inputs_D22"] = len(known22)
     if known:
         if kf:
             rep.known("D11", kf[0]["line"].split("property=C10 ", 1)[1] + f"; {len(known)} generated runs of this seed fall in the recorded class")
